@@ -21,7 +21,9 @@ class DataTable:
         self.files = {}
 
     @classmethod
-    def random(cls, rng, nelem=256):
+    def random(cls, rng, nelem=256, short=False):
+        """short=True: some of the extra files hold fewer than 256 elements (the controller then answers addresses past the
+        end with an error status)"""
         t = cls()
         t.files[0] = ("O", [rng.getrandbits(16) for _ in range(nelem * 4)])
         t.files[1] = ("I", [rng.getrandbits(16) for _ in range(nelem * 4)])
@@ -35,7 +37,8 @@ class DataTable:
         for ty, nums in extra.items():
             for n in nums:
                 if n not in t.files:
-                    t.files[n] = (ty, [rng.getrandbits(16) for _ in range(nelem * WORDS_PER_ELEMENT[ty])])
+                    ne = rng.choice([nelem, nelem, 100, 17, 3]) if short else nelem
+                    t.files[n] = (ty, [rng.getrandbits(16) for _ in range(ne * WORDS_PER_ELEMENT[ty])])
         return t
 
     def snapshot(self):
@@ -233,6 +236,17 @@ def parse_address(s):
     if m and m["t"].upper() not in SUPPORTED and m["t"].upper() not in ("ST", "A", "R", "MG", "PD", "PLS"):
         return ("reject", "unsupported file type")
     return ("dontcare", "outside the modelled grammar")
+
+
+def device_accepts(table, a):
+    """does the data table hold everything address a denotes (file of that type, all addressed elements inside it)?"""
+    f = table.files.get(a["file"])
+    if f is None or f[0] != a["type"]:
+        return False
+    ty, words = f
+    if ty in ("I", "O"):
+        return a["element"] * 4 + a["sub"] + a["count"] <= len(words)
+    return (a["element"] + a["count"]) * WORDS_PER_ELEMENT[ty] <= len(words)
 
 
 def expected_read(table, a):
